@@ -68,21 +68,30 @@ func (ts *Timers) withMap(x interface{}) error {
 	if err != nil {
 		return err
 	}
-	if err = json.Unmarshal(js, &ts.Map); err != nil {
+	// Decode aside: a map that doesn't load (or loads only in part)
+	// must leave the timers as they were.
+	fresh := make(map[string]*TimerEntry)
+	if err = json.Unmarshal(js, &fresh); err != nil {
 		return err
 	}
 	var missing []string
-	for id, te := range ts.Map {
+	for id, te := range fresh {
 		if te == nil {
-			delete(ts.Map, id)
 			missing = append(missing, id)
-			continue
 		}
-		te.timers = ts
-		te.Ctl = make(chan bool)
 	}
 	if 0 < len(missing) {
 		return fmt.Errorf("no timer given for %v", missing)
+	}
+	if ts.Map == nil {
+		ts.Map = make(map[string]*TimerEntry, len(fresh))
+	}
+	for id, te := range fresh {
+		ts.Map[id] = te
+	}
+	for _, te := range ts.Map {
+		te.timers = ts
+		te.Ctl = make(chan bool)
 	}
 
 	return nil
